@@ -52,6 +52,48 @@ Proof.
 Qed.
 Print Assumptions c08_lock_release_paths.
 
+(* no self-deadlock: no function acquires a mutex (Lock or RLock) while it already holds it in
+   any mode - in particular no recursive RLock, which deadlocks as soon as a writer arrives between
+   the two acquisitions.  Soundness for every CFG: on EVERY path from the entry ... *)
+Theorem c08_no_reacq_sound : forall g, balanced g = true -> no_reacq g = true ->
+  exists s0, init_state (locks_of g) g = Some s0 /\
+  forall p b, path (nodes g) 0 p b -> run_path_nr (locks_of g) (nodes g) 0 p s0 = true.
+Proof. exact no_reacq_sound. Qed.
+Print Assumptions c08_no_reacq_sound.
+
+(* ... THE OBLIGATION over the generated list ... *)
+Theorem c08_no_reacquire : forallb no_reacq all_cfgs = true.
+Proof. vm_compute. reflexivity. Qed.
+Print Assumptions c08_no_reacquire.
+
+(* ... hence for every lock-taking function of the library and every path *)
+Theorem c08_no_reacquire_paths : forall g, In g all_cfgs ->
+  exists s0, init_state (locks_of g) g = Some s0 /\
+  forall p b, path (nodes g) 0 p b -> run_path_nr (locks_of g) (nodes g) 0 p s0 = true.
+Proof.
+  intros g Hin. apply no_reacq_sound.
+  - apply (forallb_balanced _ c08_lock_release). exact Hin.
+  - pose proof c08_no_reacquire as H. rewrite forallb_forall in H. apply H. exact Hin.
+Qed.
+Print Assumptions c08_no_reacquire_paths.
+
+(* the check separates a recursive RLock (outer deferred, inner explicit: the shape of a read lock
+   widened over a loop that still locks per element) from the two correct forms *)
+Example c08_example_reacq :
+  let recursive := mkCfg "f" "x.go" 1%N []
+        [mkNode [Acq "mu" R; DeferRel "mu" R] [1] false; mkNode [Acq "mu" R; Rel "mu" R] [1; 2] false; mkNode [] [] true] in
+  let per_element := mkCfg "f" "x.go" 1%N []
+        [mkNode [] [1] false; mkNode [Acq "mu" R; Rel "mu" R] [1; 2] false; mkNode [] [] true] in
+  let outer_only := mkCfg "f" "x.go" 1%N []
+        [mkNode [Acq "mu" R; DeferRel "mu" R] [1] false; mkNode [] [1; 2] false; mkNode [] [] true] in
+  let upgrade := mkCfg "f" "x.go" 1%N []
+        [mkNode [Acq "mu" R; Acq "mu" W; Rel "mu" W; Rel "mu" R] [] true] in
+  (balanced recursive = true /\ no_reacq recursive = false) /\
+  (balanced per_element = true /\ no_reacq per_element = true) /\
+  (balanced outer_only = true /\ no_reacq outer_only = true) /\
+  no_reacq upgrade = false.
+Proof. vm_compute. repeat split; reflexivity. Qed.
+
 (* former F6 (wire/client_conn.go readDownstreamMetadataLoop before 900bd4c; the CFG is kept in
    Model/LockCfg.v): the checker rejects that shape, and here is the path: entry -> range head
    (message received) -> body: RLock -> stream alias subscribed -> source node NOT subscribed:
